@@ -13,4 +13,8 @@ TEXT = {
    technique="reference-model monitor (Go map oracle) over built directories incl. murmur3 pre-image sets forcing every HAMT depth; exhaustive hashBits sweep via verif hook",
    level_text="Each generated entry set (all 8 fanouts x sizes {0,1,2,3,f-1,f,f+1,2f+1,300,2000[,50000]} x 6 name families incl. hex-prefix-looking, numeric, unicode; crafted 16-byte names whose murmur3 hashes share s bits for every level s up to the last usable one, with the unresolvable ones cross-checked against boxo's refusal; sizes straddling the 262144-byte auto-shard threshold; quick builder) is built, reified and compared with a Go map: every member looked up, derived and bucket-colliding non-members must be not-found (schema.ErrNoSuchField), MapIterator and native Iterator drained and compared as multisets, Length compared. Both private hashBits helpers are swept over every (offset,width 3..10) pair against the oracle's own bit slicing.",
    note="the library and the oracle share spaolacci/murmur3; the iteration monitor trusts go-codec-dagpb's decode of the stored blocks"),
+ "C08": dict(claimed=True,
+   technique="differential monitor against boxo unixfs/hamt (side-by-side builds) + history-driven interop monitor (reference insert/remove histories read back against a map model)",
+   level_text="(1) For every non-empty entry set of the C02 enumeration (all fanouts, crafted deep sets) BuildUnixFSShardedDirectory's (root, size) is compared with boxo hamt.Shard.Node() fed the same (name, link, size) entries in a different random order; sets that no 64-bit HAMT of that fanout can hold must be refused by both. (2) Random SetLink/Remove histories of 10..2000 steps on a boxo shard (removal-heavy phases, drained to one entry) are serialised at random points and read back through Reify: lookups of all live and removed names, both iterators, Length compared with the model and with boxo's own EnumLinks.",
+   note="boxo v0.24 unixfs/hamt is the reference; both sides share spaolacci/murmur3"),
 }
